@@ -69,6 +69,9 @@ func (e *Engine) load(patterns []string) error {
 			} else {
 				e.cfiles[p.PkgPath] = cf
 			}
+			for _, gv := range cf.GhostVars {
+				e.ghostVars[p.PkgPath+"."+gv.Name] = gv
+			}
 			for _, gf := range cf.GhostFields {
 				k := p.PkgPath + "." + gf.TypeName
 				e.ghostFields[k] = append(e.ghostFields[k], gf)
@@ -593,6 +596,9 @@ func (u *Unit) checkExit(k int, ex Exit, pos token.Pos) {
 	for i, e := range ct.Ensures {
 		u.checkClause(env, e, "post", labelOr(e.Label, fmt.Sprint(i+1))+suffix, pos, st, false)
 	}
+	for i, a := range ct.Always {
+		u.checkClause(env, a, "always", labelOr(a.Label, fmt.Sprint(i+1))+suffix, pos, st, false)
+	}
 	u.checkFrame(st, env, suffix, pos)
 }
 
@@ -604,6 +610,11 @@ func (u *Unit) allowedTargets(mods []string, eenvp *SpecEnv, pos token.Pos) map[
 	for _, m := range mods {
 		if m == "heap" {
 			allowed["*"] = []string{"*"}
+			continue
+		}
+		if strings.HasPrefix(m, "ghost.") {
+			key, _ := u.ghostVarKey(eenv.home, strings.TrimPrefix(m, "ghost."))
+			allowed[key] = []string{"*"}
 			continue
 		}
 		if strings.HasPrefix(m, "global.") {
@@ -726,7 +737,7 @@ func (u *Unit) checkFrame(st *State, env *SpecEnv, suffix string, pos token.Pos)
 		if len(refs) == 1 && refs[0] == "*" {
 			continue
 		}
-		if strings.HasPrefix(k, "G_") {
+		if strings.HasPrefix(k, "G_") || strings.HasPrefix(k, "GV_") {
 			u.oblige("frame", strings.TrimPrefix(k, "G_")+suffix, pos, st, sEq(end, start), "global "+k+" unchanged (not in modifies)")
 			continue
 		}
@@ -828,6 +839,13 @@ func (u *Unit) lemmaFormula(l *Lemma, home *packages.Package) string {
 		decls = append(decls, fmt.Sprintf("(%s %s)", bn, so))
 	}
 	var pre, post []string
+	// the lemma was proved for parameter values satisfying their type invariants only
+	for _, p := range l.Params {
+		v := env.bound[p.Name]
+		if inv := u.lemmaGuard(v); inv != "true" {
+			pre = append(pre, inv)
+		}
+	}
 	for _, r := range l.Requires {
 		pre = append(pre, env.evalBool(r.Expr))
 	}
@@ -907,6 +925,11 @@ func (e *Engine) verifyLemma(p *packages.Package, l *Lemma) (res *UnitResult) {
 		mIH := ienv.eval(me).T
 		mCur := env.eval(me).T
 		var pre, post []string
+		for _, prm := range l.Params {
+			if inv := u.lemmaGuard(ienv.bound[prm.Name]); inv != "true" {
+				pre = append(pre, inv)
+			}
+		}
 		for _, r := range l.Requires {
 			pre = append(pre, ienv.evalBool(r.Expr))
 		}
@@ -1010,4 +1033,19 @@ func (u *Unit) loopFrame(ls *LoopSpec, n int, pre, cur *State, mods loopMods, en
 			cur.assume(f)
 		}
 	}
+}
+
+// lemmaGuard: the part of a parameter's type invariant that restricts a lemma used as an axiom.
+// Well-formedness of slices and maps (len >= 0, ...) holds for every value of a real execution
+// and is not repeated; the canonical form of arrays (zero outside the bounds) and integer
+// ranges are kept, because terms produced by ghost functions need not satisfy them.
+func (u *Unit) lemmaGuard(v Val) string {
+	if v.Ty == nil {
+		return "true"
+	}
+	switch v.Ty.Underlying().(type) {
+	case *types.Slice, *types.Map:
+		return "true"
+	}
+	return u.typeInv(v)
 }
